@@ -7,13 +7,13 @@ require (
 	github.com/blevesearch/bleve_index_api v1.2.8
 	github.com/blevesearch/go-faiss v1.0.25
 	github.com/blevesearch/scorch_segment_api/v2 v2.3.10
+	github.com/blevesearch/vellum v1.1.0
 	github.com/blevesearch/zapx/v16 v16.0.0
 )
 
 require (
 	github.com/bits-and-blooms/bitset v1.22.0 // indirect
 	github.com/blevesearch/mmap-go v1.0.4 // indirect
-	github.com/blevesearch/vellum v1.1.0 // indirect
 	github.com/golang/snappy v0.0.4 // indirect
 	golang.org/x/sys v0.13.0 // indirect
 )
